@@ -762,7 +762,9 @@ def r12_6(ctx, prog, crate):
                 ctx.fail("R12.6", ["path_components", "type-level-iff-const"], "a path of path_components does not decide on const_value.is_some() (%s)" % (s.conds,), pc.where(s.blocks[-1]))
         ctx.check(n_some >= 1 and n_none >= 1, "R12.6", ["path_components", "both-cases"], "paths with const: %d, without: %d" % (n_some, n_none), pc.where(0))
         cl = [x for x in prog.children(pc) if x.kind == "Closure"]
-        ctx.check(len(cl) == 1 and [c.callee for c in cl[0].live_calls()] == ["entry::generic::EntryType::display_name"], "R12.6", ["path_components", "type-level-display_name"],
+        # the mapping function: a closure calling display_name, or the method itself passed by name
+        by_name = not cl and any("('opaque', 'fn:entry::generic::EntryType::display_name')" in str(s_.ret) for s_ in sums)
+        ctx.check(by_name or (len(cl) == 1 and [c.callee for c in cl[0].live_calls()] == ["entry::generic::EntryType::display_name"]), "R12.6", ["path_components", "type-level-display_name"],
                   "the type level is named by %s" % [[c.callee for c in x.live_calls()] for x in cl], pc.where(0))
     # from_benches: which components for which kind of entry
     names_ = tables.variant_names(prog, "entry::AnyBenchEntry", crate)
